@@ -208,3 +208,23 @@ def ref_fco2(conc, ref, bsted, bface, fsink, wp):
         f = f_new
     ftype = 0.0 if wp >= 40 else (1.0 if wp <= 20 else (40 - wp) / 20.0)
     return 1 + ftype * (f - 1)
+
+
+# ---------------------------------------------------------------------------------------------
+# pedotransfer function (Saxton & Rawls 2006, eqs. 1-5, 15-16), independent of Soil.calculate_soil_hydraulic_properties
+# ---------------------------------------------------------------------------------------------
+def saxton_rawls(sand_pct, clay_pct, om_pct):
+    """(th_wp, th_fc, th_s, Ksat mm/day) from sand / clay in PERCENT by weight and organic matter in percent (density factor 1)."""
+    import math
+
+    S, C, OM = sand_pct / 100.0, clay_pct / 100.0, float(om_pct)
+    t1500 = -0.024 * S + 0.487 * C + 0.006 * OM + 0.005 * S * OM - 0.013 * C * OM + 0.068 * S * C + 0.031
+    wp = t1500 + (0.14 * t1500 - 0.02)
+    t33 = -0.251 * S + 0.195 * C + 0.011 * OM + 0.006 * S * OM - 0.027 * C * OM + 0.452 * S * C + 0.299
+    fc = t33 + (1.283 * t33 * t33 - 0.374 * t33 - 0.015)
+    ts33 = 0.278 * S + 0.034 * C + 0.022 * OM - 0.018 * S * OM - 0.027 * C * OM - 0.584 * S * C + 0.078
+    s33 = ts33 + (0.636 * ts33 - 0.107)
+    sat = fc + s33 - 0.097 * S + 0.043
+    lam = (math.log(fc) - math.log(wp)) / (math.log(1500.0) - math.log(33.0))
+    ks = 1930.0 * (sat - fc) ** (3.0 - lam) * 24.0
+    return wp, fc, sat, ks
